@@ -11,8 +11,12 @@
      eff_hours T i   = acc_hours if < 2^64, else 0  (legacy exception
                        ErrAddEarnedCoinHoursAdditionOverflow: the input counts as zero)
      out_sum outs    = TRUE (unbounded) sum of the outputs' hours *)
+(* Gen.CoinLoops first: its definitions have the Go names, as the model's do; the
+   unqualified names below are the model's (Model.Hours), the regenerated ones
+   are written CoinLoops.f *)
+From Sky Require Import Gen.CoinLoops.
 From Sky Require Import Base.Uint Model.ArithSpec Model.HoursSpec Model.Hours
-  Gen.Mathutil Gen.CoinHours Proofs.CoinHoursProofs Proofs.HoursProofs.
+  Gen.Mathutil Gen.CoinHours Proofs.CoinHoursProofs Proofs.HoursProofs Proofs.HoursRefine.
 Open Scope Z_scope.
 
 (* ---- (a) accrued hours *)
@@ -142,6 +146,44 @@ Theorem C03_single_implies_block : forall pre T ins outs,
   VerifyBlockTxnConstraints pre T ins outs = Val None.
 Proof. exact single_implies_block. Qed.
 Print Assumptions C03_single_implies_block.
+
+(* ---- (d) the model IS the code: the hand-written loops of Model/Hours.v are
+   equal, for ALL inputs (no range hypotheses), to the Gallina that the
+   translator regenerates from src/coin/transactions.go and src/coin/outputs.go
+   on every run (Gen/CoinLoops.v), applied to the fields the Go functions read:
+     ins_proj   : each input  -> (Head.Time, Body.Coins, Body.Hours)
+     outs_hours : each output -> Hours        outs_coins / ins_coins -> Coins
+   So every theorem above is a theorem about the regenerated code, and a change
+   of meaning in one of these Go functions breaks a proof obligation here. *)
+Theorem C03_VerifyTransactionHoursSpending_is_translated : forall T ins outs,
+  Hours.VerifyTransactionHoursSpending T ins outs
+  = CoinLoops.VerifyTransactionHoursSpending T (ins_proj ins) (outs_hours outs).
+Proof. exact VerifyTransactionHoursSpending_refines. Qed.
+Print Assumptions C03_VerifyTransactionHoursSpending_is_translated.
+
+Theorem C03_OutputHours_is_translated : forall outs,
+  Hours.Transaction_OutputHours outs = CoinLoops.Transaction_OutputHours (outs_hours outs).
+Proof. exact OutputHours_refines. Qed.
+Print Assumptions C03_OutputHours_is_translated.
+
+Theorem C03_UxArray_CoinHours_is_translated : forall T ins,
+  Hours.UxArray_CoinHours T ins = CoinLoops.UxArray_CoinHours (ins_proj ins) T.
+Proof. exact UxArray_CoinHours_refines. Qed.
+Print Assumptions C03_UxArray_CoinHours_is_translated.
+
+Theorem C03_VerifyTransactionCoinsSpending_is_translated : forall ins outs,
+  Hours.VerifyTransactionCoinsSpending ins outs
+  = CoinLoops.VerifyTransactionCoinsSpending (ins_coins ins) (outs_coins outs).
+Proof. exact VerifyTransactionCoinsSpending_refines. Qed.
+Print Assumptions C03_VerifyTransactionCoinsSpending_is_translated.
+
+(* the acceptance theorem restated directly on the regenerated function *)
+Theorem C03_translated_hours_spending_accepts_iff : forall T ins outs,
+  Forall wf_in ins -> Forall wf_out outs -> in_u 64 T ->
+  (CoinLoops.VerifyTransactionHoursSpending T (ins_proj ins) (outs_hours outs) = Val None
+   <-> block_hours_ok T ins outs = true).
+Proof. exact translated_hours_spending_accepts_iff. Qed.
+Print Assumptions C03_translated_hours_spending_accepts_iff.
 
 (* non-vacuity: an accepted transaction with accrued hours (2 coins for 1000
    hours = 2000 hours + 7), spent to the last hour; one hour more is rejected;
